@@ -311,14 +311,14 @@ class SlotFlow:
                         elif u in self.may_set:
                             st = UNK
             # successors with edge refinement
-            cond = cfg.cond_node(b)
+            cond, neg = cfg.branch_atom(b)
             succ = blk['succ']
             for idx, s in enumerate(succ):
                 if s is None:
                     continue
                 es = st
                 if cond is not None and len(succ) == 2 and succ[0] != succ[1]:
-                    pol = (idx == 0)
+                    pol = (idx == 0) != neg
                     for atom, p in q.conjuncts(cond, pol):
                         if self._edge_empty(fn, atom, p):
                             es = EMPTY
